@@ -534,6 +534,18 @@ def c12(tr, sem=None):
         if k > 1:
             v.append(f'the failure {ident[0]} of attempt {ident[3]} of node {n} (invocation {ident[2]}) was reported {k} times '
                      f'by on_node_complete: the node gave up instead of making the next attempt')
+    # "with delay seconds between attempts": the pause that follows a retried attempt is the configured delay — whatever time
+    # the attempt itself took, whatever else the clock did meanwhile
+    for e in _events(tr) + tr.get('after', []):
+        last = None
+        for o in e.get('obs', []):
+            if o[0] == 'emit' and o[1] == 'ncomplete' and o[4] is not None:
+                last = o[3]
+            elif o[0] == 'sleep' and last is not None and last < len(tr['spec']['nodes']):
+                want = tr['spec']['nodes'][last].get('delay') or 0
+                if abs(float(o[1]) - float(want)) > 1e-9:
+                    v.append(f'node {last} pauses {o[1]} before its next attempt, its configured delay is {want}')
+                last = None
     # where an execution was given up: the exception left the node's task, was reported as the outcome, or get_default ran
     gave_up = set()
     for e in _events(tr) + tr.get('after', []):
